@@ -226,6 +226,29 @@ def gen(repo) -> str:
         raise RegenError("%s: DefVisitor of visitCallTag lacks visitDefTag/visitBlockTag" % rel)
     descends = not {"visitCallTag", "visitCallNamespaceTag"} <= dv_methods
 
+    # visitControlLine: a `% for` is rewritten by mangle_mako_loop only while the loop context is enabled
+    vcl = find_func(gen_cls.body, "visitControlLine", rel)
+    guards = []
+    for n in ast.walk(vcl):
+        if isinstance(n, ast.If) and any(isinstance(m, ast.Call) and isinstance(m.func, ast.Name) and m.func.id == "mangle_mako_loop"
+                                         for st in n.body for m in ast.walk(st)):
+            guards.append(n.test)
+    if len(guards) != 1:
+        raise RegenError("%s: visitControlLine has no single `if …: mangle_mako_loop(...)`" % rel)
+    gsrc = ast.unparse(guards[0])
+    if 'node.keyword == \'for\'' not in gsrc:
+        raise RegenError("%s: visitControlLine rewrites under the condition `%s`" % (rel, gsrc))
+    conj = [ast.unparse(v) for v in guards[0].values] if isinstance(guards[0], ast.BoolOp) and isinstance(guards[0].op, ast.And) else [gsrc]
+    for_only_enabled = "self.compiler.enable_loop" in conj
+    if not for_only_enabled and conj != ["node.keyword == 'for'"]:
+        raise RegenError("%s: visitControlLine rewrites under the condition `%s`" % (rel, gsrc))
+
+    # _Identifiers.visitControlLine: does a `% for` whose suite mentions `loop` count as a reader of `loop` itself
+    # (so that the function it is emitted into creates its __M_loop)?
+    ivcl = find_func(ident_cls.body, "visitControlLine", rel)
+    for_declares_loop = any(isinstance(n, ast.Call) and isinstance(n.func, ast.Name) and n.func.id == "LoopVariable"
+                            for n in ast.walk(ivcl))
+
     out = [HEADER % "mako/codegen.py (TOPLEVEL_DECLARED, RESERVED_NAMES, _Identifiers, _GenerateRenderMethod), mako/template.py (Template.reserved_names, render_context), mako/runtime.py (Context.__getitem__, Context.get)",
            "", "namespace MakoModel.Generated.Names", "",
            "/-- `codegen.TOPLEVEL_DECLARED` (sorted) -/",
@@ -251,6 +274,10 @@ def gen(repo) -> str:
            "def mlocalsUpdateMinusArgs : Bool := " + ("true" if ml_minus_args else "false"),
            "/-- whether `visitCallTag` removes `caller` from `callable_identifiers.declared` before the defs of the call are written -/",
            "def callDefsDropCaller : Bool := " + ("true" if drop else "false"),
+           "/-- whether `visitControlLine` hands a `% for` line to `mangle_mako_loop` only while `compiler.enable_loop` is set -/",
+           "def forRewriteOnlyWhenEnabled : Bool := " + ("true" if for_only_enabled else "false"),
+           "/-- whether `_Identifiers.visitControlLine` records `loop` as undeclared for a `% for` whose suite mentions `loop` (the harness then passes `loop` among the undeclared identifiers of that leaf) -/",
+           "def forLineReadsLoop : Bool := " + ("true" if for_declares_loop else "false"),
            "/-- whether the `DefVisitor` of `visitCallTag` descends into nested `<%call>` tags: true iff it has no `visitCallTag` / `visitCallNamespaceTag` method of its own (the default traversal then enters them) -/",
            "def callDefsDescendCalls : Bool := " + ("true" if descends else "false"),
            "/-- whether `Context.__getitem__` / `Context.get` decide \"bound in the context\" by key membership (true) or by a test on the value (false) -/",
